@@ -379,6 +379,8 @@ func genC16(do func(string, M)) {
 	}
 }
 
+func init() { vWBNames["bech32.polymod"] = true }
+
 func TestVerifDriver(t *testing.T) {
 	if os.Getenv("VERIF_MODE") == "replay" {
 		rec := vOpen()
@@ -399,6 +401,9 @@ func TestVerifDriver(t *testing.T) {
 				continue
 			}
 			flush()
+			if vSkipOp(v.Op) {
+				continue
+			}
 			rec.emit(v.Op, v.In, vRun(v.Op, v.In))
 		}
 		flush()
